@@ -628,9 +628,12 @@ def run_interp_item(it):
         j = min(N - 1, 3 * N // 4)
         tf = tfs[min(len(tfs) - 1, 6)][1]
         td = tds[min(len(tds) - 1, 5)][1]
-        out = call_interp(build(f, d, E[j:j + 1], "float64", "none"), f, d, tf, td, True, "interp")
-        res["samples"].append(dict(op="interp", grid=it["name"], freq=f, dir=d, efth=E[j], target_freq=tf, target_dir=td,
-                                   maintain_m0=True, result_dims=list(out.dims), result=np.asarray(out.values)))
+        try:
+            out = call_interp(build(f, d, E[j:j + 1], "float64", "none"), f, d, tf, td, True, "interp")
+            res["samples"].append(dict(op="interp", grid=it["name"], freq=f, dir=d, efth=E[j], target_freq=tf, target_dir=td,
+                                       maintain_m0=True, result_dims=list(out.dims), result=np.asarray(out.values)))
+        except Exception:  # noqa  (already reported as a raises-* violation by the enumeration above)
+            pass
     return res
 
 
@@ -674,8 +677,11 @@ def run_rotate_item(it):
     res["parts"][it["part"]] = res["evals"]
     if it.get("sample"):
         j = min(N - 1, N // 2)
-        out = build(f, d, E[j:j + 1], "float64", "none").spec.rotate(7.3)
-        res["samples"].append(dict(op="rotate", grid=it["name"], freq=f, dir=d, efth=E[j], angle=7.3, result=np.asarray(out.values)))
+        try:
+            out = build(f, d, E[j:j + 1], "float64", "none").spec.rotate(7.3)
+            res["samples"].append(dict(op="rotate", grid=it["name"], freq=f, dir=d, efth=E[j], angle=7.3, result=np.asarray(out.values)))
+        except Exception:  # noqa
+            pass
     return res
 
 
